@@ -467,6 +467,8 @@ def run_case(rep: Report, prop, qual, name, setup, post, *, contracts=None, loop
         reach_error = "out of reach: recursion"
     except Exception as e:
         reach_error = f"engine exception: {type(e).__name__}: {e} | {traceback.format_exc().splitlines()[-3:]}"
+        if os.environ.get("QV_TRACE") == "1":
+            traceback.print_exc()
     secs_total = time.time() - t0
     rep.dropped |= set(ctx.notes)
     out = []
